@@ -211,9 +211,65 @@ Section HistModel.
     | h :: mods', sp :: specs' => pure_h h sp :: pures mods' specs'
     | _, _ => []
     end.
+
+  (* ---- modules whose _sensitivity also WRITES their memory (EigenSolve keeps one adjoint solver per mode and
+     (re)factorises it inside _sensitivity).  sm_after mu xs ys ws: the memory after _sensitivity ran with memory mu
+     at the input states xs, the output states ys and the (filled) output sensitivities ws *)
+  Record smod : Type := {
+    sm_mod : hmod;
+    sm_after : M -> list vec -> list vec -> list vec -> M
+  }.
+
+  (* Network.sensitivity with memories: [m.sensitivity() for m in reversed(self.mods)] -- the tail is processed before
+     the head; Module.sensitivity returns early (memory untouched) when none of its outputs carries a sensitivity *)
+  Fixpoint sens_sweep (mods : list smod) (mems : list M) (st : tenv) (c : cenv) : list M * cenv :=
+    match mods, mems with
+    | h :: mods', mu :: mems' =>
+      let r := sens_sweep mods' mems' st c in
+      let m := at_point st (sm_mod h) mu in
+      let ws := map (snd r) (h_outs (sm_mod h)) in
+      if skip m ws then (mu :: fst r, snd r)
+      else (sm_after h mu (map (read_t st) (h_ins (sm_mod h))) (map st (h_outs (sm_mod h)))
+                     (fill (sdims st) (h_outs (sm_mod h)) ws) :: fst r,
+            apply_adj (sdims st) m ws (snd r))
+    | _, _ => (mems, c)
+    end.
+
+  Definition step_s (keep : nat -> bool) (mods : list smod) (x : nst) (o : op) : nst :=
+    match o with
+    | OSens => let r := sens_sweep mods (s_mem x) (s_st x) (s_se x) in
+               {| s_st := s_st x; s_se := snd r; s_mem := fst r; s_fresh := s_fresh x |}
+    | _ => step keep (map sm_mod mods) x o
+    end.
+
+  Definition run_s (keep : nat -> bool) (mods : list smod) (ops : list op) (x : nst) : nst :=
+    fold_left (step_s keep mods) ops x.
+
+  (* cache-correct including the memory written by the sensitivity: the invariant survives every sensitivity pass
+     that follows the response it belongs to *)
+  Definition scc (h : smod) (sp : cspec) : Prop :=
+    cc (sm_mod h) sp /\
+    forall mu xs ws, c_good sp mu (Some xs) -> c_good sp (sm_after h mu xs (c_f sp xs) ws) (Some xs).
+
+  (* an ordinary module (sensitivity reads the memory only) as an smod *)
+  Definition lift_s (h : hmod) : smod := {| sm_mod := h; sm_after := fun mu _ _ _ => mu |}.
+
+  Fixpoint admissible_run_s (keep : nat -> bool) (mods : list smod) (ops : list op) (x : nst) : Prop :=
+    match ops with
+    | [] => True
+    | o :: ops' => admissible (map sm_mod mods) x o /\ admissible_run_s keep mods ops' (step_s keep mods x o)
+    end.
+
+  (* seeding, sensitivity() and reset() only: what may happen between a response() and a further sensitivity pass
+     on the SAME response *)
+  Definition pass_op (o : op) : bool :=
+    match o with OSeed _ _ => true | OSens => true | OReset => true | _ => false end.
+  (* one more pass on the current response: seeds; sensitivity() -- no new response() *)
+  Definition pass_only (seeds : list (nat * vec)) : list op := seed_ops seeds ++ [OSens].
 End HistModel.
 
 Arguments hmod {K} M.
+Arguments smod {K} M.
 Arguments op {K}.
 Arguments nst {K} M.
 Arguments cspec {K} M.
@@ -341,6 +397,193 @@ Section EigenSolveModel.
     | Some xs => mu = (Some (factorise (shifted xs)), true)
     end.
 End EigenSolveModel.
+
+(* ---- SolverDenseCholesky (solvers/dense.py), the solver LinSolve / SystemOfEquations / StaticCondensation select for
+        dense Hermitian matrices whose diagonal has one sign:
+          __init__ : self.backup_solver = SolverDenseLDL(); self.success = None
+          update(A): try: self.U = cholesky(A); self.success = True
+                     except LinAlgError: self.backup_solver.update(A); self.success = False
+          solve    : if self.success: two triangular solves with self.U   else: self.backup_solver.solve(rhs, trans)
+        Memory = (success, U, factorisation held by the backup solver).  A failed attempt leaves U untouched, a
+        successful one leaves the backup factorisation untouched: both can be STALE, the flag decides which is read. *)
+Section CholeskyFallbackModel.
+  Context {K : Type}.
+  Variable FU FL : Type.                                  (* Cholesky factor; LDL factorisation *)
+  Variable chol : list K -> option FU.                    (* spla.cholesky(A); None = LinAlgError *)
+  Variable ldl : list K -> FL.                            (* SolverDenseLDL.update(A) *)
+  Variable usolve : FU -> bool -> list K -> list K.       (* factor, transposed?, right-hand side *)
+  Variable lsolve : FL -> bool -> list K -> list K.
+  Variable unfactorised : list K.                         (* a solve before any factorisation (an exception) *)
+  Variable outer_neg : list K -> list K -> list K.        (* -lam u^T (flat) *)
+
+  Record cstate : Type := { cs_success : option bool; cs_U : option FU; cs_L : option FL }.
+  Definition cs_init : cstate := {| cs_success := None; cs_U := None; cs_L := None |}.
+
+  Definition chol_update (s : cstate) (A : list K) : cstate :=
+    match chol A with
+    | Some U => {| cs_success := Some true; cs_U := Some U; cs_L := cs_L s |}
+    | None => {| cs_success := Some false; cs_U := cs_U s; cs_L := Some (ldl A) |}
+    end.
+
+  (* `if self.success:` -- None and False both take the backup branch *)
+  Definition chol_solve (s : cstate) (tr : bool) (b : list K) : list K :=
+    match cs_success s with
+    | Some true => match cs_U s with Some U => usolve U tr b | None => unfactorised end
+    | _ => match cs_L s with Some L => lsolve L tr b | None => unfactorised end
+    end.
+
+  (* the answers of one solver object to a sequence of update(A_k); solve(b); solve(b, trans='T') *)
+  Fixpoint chol_answers (s : cstate) (As : list (list K)) (b : list K) : list (list K) :=
+    match As with
+    | [] => []
+    | A :: r => let s' := chol_update s A in chol_solve s' false b :: chol_solve s' true b :: chol_answers s' r b
+    end.
+
+  (* LinSolve with this solver: _response = solver.update(mat); self.u = solver.solve(rhs);
+     _sensitivity = solver.solve(dfdv, trans='T') and the stored self.u
+     (LDAWrapper.update clears its stored solutions and forwards to the inner solver; its solve is the inner solve) *)
+  Definition chol_linsolve_h (ins : list ref) (out : nat) : hmod (cstate * option (list K)) :=
+    {| h_ins := ins; h_outs := [out];
+       h_resp := fun mu xs =>
+                   let s := chol_update (fst mu) (nth 0 xs []) in
+                   let u := chol_solve s false (nth 1 xs []) in ((s, Some u), [u]);
+       h_sens := fun mu xs ys ws =>
+                   let u := match snd mu with Some u => u | None => [] end in
+                   let lam := chol_solve (fst mu) true (nth 0 ws []) in
+                   [Some (outer_neg lam u); Some lam] |}.
+
+  (* a freshly constructed solver that has seen only A *)
+  Definition chol_fresh_solve (A : list K) (tr : bool) (b : list K) : list K :=
+    match chol A with Some U => usolve U tr b | None => lsolve (ldl A) tr b end.
+  Definition chol_f (xs : list (list K)) : list (list K) := [chol_fresh_solve (nth 0 xs []) false (nth 1 xs [])].
+  Definition chol_g (xs ys ws : list (list K)) : list (option (list K)) :=
+    let lam := chol_fresh_solve (nth 0 xs []) true (nth 0 ws []) in [Some (outer_neg lam (nth 0 ys [])); Some lam].
+  (* whatever is stale inside, the solver ANSWERS for the matrix of the latest response, and u is its solution *)
+  Definition chol_good (mu : cstate * option (list K)) (last : option (list (list K))) : Prop :=
+    match last with
+    | None => True
+    | Some xs => (forall tr b, chol_solve (fst mu) tr b = chol_fresh_solve (nth 0 xs []) tr b) /\
+                 snd mu = Some (chol_fresh_solve (nth 0 xs []) false (nth 1 xs []))
+    end.
+End CholeskyFallbackModel.
+
+(* ---- EigenSolve._sparse_eigvec_sens (modules/linalg.py): one adjoint solver per mode, created and factorised INSIDE
+        _sensitivity:
+          _prepare / _response : self.adjoint_solvers_need_update = True            (nothing ever clears it)
+          for i in range(W.size):
+              if dQ[:, i] is all zero: continue                                      (unseeded modes are skipped)
+              if self.adjoint_solvers_need_update or self.solvers[i] is None:
+                  Z = A - W[i] * B
+                  if not hasattr(self, 'solvers'): self.solvers = [None for _ in range(W.size)]
+                  if self.solvers[i] is None: self.solvers[i] = auto_determine_solver(Z, ...)
+                  if self.adjoint_solvers_need_update: self.solvers[i].update(Z)
+              vp = self.solvers[i].solve(r, trans='T')
+        Memory = (need_update, solvers).  A skipped mode keeps whatever factorisation its solver got in an EARLIER
+        response; it is refreshed when the mode is visited again because the flag is still set. *)
+Section EigenAdjointModel.
+  Context {K : Type}.
+  Variable FA : Type.                                     (* a factorisation of A - lambda_i B *)
+  Variable afact : list K -> FA.                          (* solvers[i].update(Z) *)
+
+  (* None: no solver object yet; Some None: created, never factorised; Some (Some f): holds factorisation f *)
+  Definition acell : Type := option (option FA).
+  (* (adjoint_solvers_need_update, self.solvers) -- None: the attribute does not exist yet *)
+  Definition amem : Type := (bool * option (list acell))%type.
+  Definition amem0 : amem := (true, None).
+
+  Definition cell_fact (c : acell) : option FA := match c with Some (Some f) => Some f | _ => None end.
+  Fixpoint put_nth {A : Type} (i : nat) (a : A) (l : list A) : list A :=
+    match l, i with
+    | [], _ => []
+    | _ :: l', O => a :: l'
+    | x :: l', S i' => x :: put_nth i' a l'
+    end.
+
+  (* self.adjoint_solvers_need_update = True *)
+  Definition adj_on_response (mu : amem) : amem := (true, snd mu).
+
+  (* the loop body for a seeded mode i; returns the memory and the factorisation solve() reads (None: the solver holds
+     none -- an exception).  With the flag set the `or` short-circuits and self.solvers is not touched before it exists;
+     flag clear + attribute missing is an AttributeError in the code and "no factorisation" here. *)
+  Definition adj_visit (n : nat) (mu : amem) (i : nat) (Z : list K) : amem * option FA :=
+    let cur : acell := match snd mu with Some l => nth i l None | None => None end in
+    if fst mu || is_none cur then
+      let l := match snd mu with Some l => l | None => repeat None n end in
+      let c1 : acell := match nth i l None with None => Some None | Some c => Some c end in
+      let c2 : acell := if fst mu then Some (Some (afact Z)) else c1 in
+      ((fst mu, Some (put_nth i c2 l)), cell_fact c2)
+    else (mu, cell_fact cur).
+
+  (* modes = [(i, "dQ[:, i] is not all zero", A - W[i] B) for i in range(W.size)] *)
+  Fixpoint adj_loop (n : nat) (mu : amem) (modes : list (nat * bool * list K)) : amem * list (nat * option FA) :=
+    match modes with
+    | [] => (mu, [])
+    | (i, seeded, Z) :: r =>
+      if seeded
+      then let v := adj_visit n mu i Z in
+           let rest := adj_loop n (fst v) r in (fst rest, (i, snd v) :: snd rest)
+      else adj_loop n mu r
+    end.
+
+  (* what every visited mode reads when all adjoint solvers are freshly factorised *)
+  Definition adj_current (modes : list (nat * bool * list K)) : list (nat * option FA) :=
+    flat_map (fun m : nat * bool * list K => if snd (fst m) then [(fst (fst m), Some (afact (snd m)))] else []) modes.
+
+  (* the factorisations held after each sensitivity pass of a history of one module:
+     None = a response (of the next design), Some seeded = reset(); seed the listed modes; sensitivity() *)
+  Fixpoint adj_trace (n : nat) (Zof : nat -> nat -> list K) (mu : amem) (k : nat) (ops : list (option (list bool)))
+    : list (list (option FA)) :=
+    match ops with
+    | [] => []
+    | None :: r => adj_trace n Zof (adj_on_response mu) (S k) r
+    | Some seeded :: r =>
+      let modes := map (fun ib => (fst ib, snd ib, Zof k (fst ib))) (combine (seq 0 n) seeded) in
+      let mu' := fst (adj_loop n mu modes) in
+      map cell_fact (match snd mu' with Some l => l | None => repeat None n end) :: adj_trace n Zof mu' k r
+    end.
+
+  (* the sparse EigenSolve as a module whose sensitivity writes its memory: shift-invert memory of eigensolve_h
+     paired with the adjoint solvers *)
+  Variable F : Type.
+  Variable factorise : list K -> F.
+  Variable shifted : list (list K) -> list K.
+  Variable sigma_nonzero : bool.
+  Variable eigs : F -> list (list K) -> list (list K).
+  Variable nmodes : list (list K) -> nat.                                          (* W.size, from the output states *)
+  Variable modes_of : list (list K) -> list (list K) -> list (list K) -> list (nat * bool * list K)
+    (* inputs, outputs (W, Q), output sensitivities (dW, dQ) |-> the modes list above *).
+  Variable eig_adj_with : list (list K) -> list (list K) -> list (list K) -> list (nat * option FA) -> list (option (list K))
+    (* eigenvalue part + the contribution of every visited mode, each computed with the factorisation its solver holds *).
+
+  Definition eigadj_s (ins : list ref) (outs : list nat) : smod ((option F * bool) * amem) :=
+    let base := eigensolve_h F factorise shifted sigma_nonzero eigs (fun _ _ _ => []) ins outs in
+    {| sm_mod := {| h_ins := ins; h_outs := outs;
+                    h_resp := fun mu xs => let r := h_resp base (fst mu) xs in
+                                           ((fst r, adj_on_response (snd mu)), snd r);
+                    h_sens := fun mu xs ys ws =>
+                                eig_adj_with xs ys ws (snd (adj_loop (nmodes ys) (snd mu) (modes_of xs ys ws))) |};
+       sm_after := fun mu xs ys ws => (fst mu, fst (adj_loop (nmodes ys) (snd mu) (modes_of xs ys ws))) |}.
+
+  Definition eigadj_f (xs : list (list K)) : list (list K) := eigs (factorise (shifted xs)) xs.
+  Definition eigadj_g (xs ys ws : list (list K)) : list (option (list K)) :=
+    eig_adj_with xs ys ws (adj_current (modes_of xs ys ws)).
+  Definition eigadj_good (mu : (option F * bool) * amem) (last : option (list (list K))) : Prop :=
+    eigensolve_good F factorise shifted (fst mu) last /\ fst (snd mu) = true.
+End EigenAdjointModel.
+
+(* executable instances for the bookkeeping correspondence of tools/checks/C03.py: matrices are TAGS.
+   Cholesky: a matrix is [tag; 1 if positive definite else 0]; every answer names the factorisation it was computed
+   with.  Adjoint solvers: Z_i of the k-th response is [k; i]. *)
+From Coq Require Import ZArith.
+Section TagInstances.
+  Local Open Scope Z_scope.
+  Definition tag_chol (A : list Z) : option Z := if Z.eqb (nth 1 A 0) 1 then Some (nth 0 A 0) else None.
+  Definition tag_ldl (A : list Z) : Z := nth 0 A 0.
+  Definition tag_answers (As : list (list Z)) : list (list Z) :=
+    chol_answers Z Z tag_chol tag_ldl (fun U _ _ => [U]) (fun L _ _ => [L]) [-1] (cs_init Z Z) As [].
+  Definition tag_adj_trace (n : nat) (ops : list (option (list bool))) : list (list (option (list Z))) :=
+    adj_trace (list Z) (fun Zm => Zm) n (fun k i => [Z.of_nat k; Z.of_nat i]) (amem0 (list Z)) 0%nat ops.
+End TagInstances.
 
 (* =====================================================================================================
    Executable modules used by the correspondence (integer-exact core of tools/checks/C03.py) *)
